@@ -514,15 +514,22 @@ func (c *VCtx) mapCardFacts(st *State, mt *types.Map, m, card *Term) {
 	c.fact(Implies(Not(Eq(m, Null)), T(SBool, fmt.Sprintf("(= (= %s 0) (forall ((kk %s)) (not (select (select %s %s) kk))))", card.S, ks, dom.S, m.S))))
 }
 
-// rangeWrite returns the heap after writing n elements from src(srcOff..) into arr at dstOff.
-func (c *VCtx) rangeWrite(st *State, es Sort, arr, dstOff *Term, src *Term, srcOff, n *Term) {
+// rangeWrite: the heap after writing n elements into the backing array of dst starting at dst[dstRel0];
+// element k (0 <= k < n) comes from srcAt(k). Indices of slices are written with sidx so that instances of
+// this definition produce the same index terms as contract expressions s[i].
+func (c *VCtx) rangeWrite(st *State, es Sort, dst *Term, dstRel0 *Term, srcAt func(k string) string, n *Term) {
 	hn := elemHeapName(es)
 	hs := ArrSort(SRef, ArrSort(SInt, es))
 	h := c.heap(st, hn, hs)
+	arr := SlArr(dst)
 	na := c.fresh("A", ArrSort(SInt, es))
 	oldA := Select(h, arr)
-	c.defFact(na, T(SBool, fmt.Sprintf("(forall ((j Int)) (! (= (select %s j) (ite (and (<= %s j) (< j (+ %s %s))) (select %s (+ %s (- j %s))) (select %s j))) :pattern ((select %s j))))",
-		na.S, dstOff.S, dstOff.S, n.S, src.S, srcOff.S, dstOff.S, oldA.S, na.S)))
+	lo := fmt.Sprintf("(sidx %s %s)", dst.S, dstRel0.S)
+	c.defFact(na, T(SBool, fmt.Sprintf("(forall ((j Int)) (! (= (select %s j) (ite (and (<= %s j) (< j (+ %s %s))) %s (select %s j))) :pattern ((select %s j))))",
+		na.S, lo, lo, n.S, srcAt(fmt.Sprintf("(- j %s)", lo)), oldA.S, na.S)))
+	// the same definition phrased over slice positions: dst[dstRel0+k] = src(k)
+	c.defFact(na, T(SBool, fmt.Sprintf("(forall ((k Int)) (! (=> (and (<= 0 k) (< k %s)) (= (select %s (sidx %s (+ %s k))) %s)) :pattern ((sidx %s (+ %s k)))))",
+		n.S, na.S, dst.S, dstRel0.S, srcAt("k"), dst.S, dstRel0.S)))
 	c.setHeap(st, hn, Store(h, arr, na))
 }
 
@@ -532,14 +539,18 @@ func (c *VCtx) appendOp(fr *Frame, st *State, cc *ssa.CallCommon) Val {
 	es := sortOf(sl.Elem())
 	hn := elemHeapName(es)
 	hs := ArrSort(SRef, ArrSort(SInt, es))
-	var srcArr, srcOff, n *Term
-	if cc.Args[1].Type().Underlying() == types.Typ[types.String] || sortOf(cc.Args[1].Type()) == SStr {
+	var srcAt func(k string) string
+	var n *Term
+	if sortOf(cc.Args[1].Type()) == SStr {
 		t := fr.term(cc.Args[1])
-		srcArr, srcOff, n = StrData(t), IntLit(0), StrLen(t)
+		srcAt = func(k string) string { return fmt.Sprintf("(select (str-data %s) %s)", t.S, k) }
+		n = StrLen(t)
 	} else {
 		t := fr.term(cc.Args[1])
 		h := c.heap(st, hn, hs)
-		srcArr, srcOff, n = c.name("src", Select(h, SlArr(t))), SlOff(t), SlLen(t)
+		src := c.name("src", Select(h, SlArr(t)))
+		srcAt = func(k string) string { return fmt.Sprintf("(select %s (sidx %s %s))", src.S, t.S, k) }
+		n = SlLen(t)
 	}
 	newLen := c.name("alen", Add(SlLen(s), n))
 	grow := c.fresh("grow", SBool)
@@ -551,12 +562,12 @@ func (c *VCtx) appendOp(fr *Frame, st *State, cc *ssa.CallCommon) Val {
 	c.defFact(fcap, And(Ge(fcap, newLen), Lt(fcap, IntLitS(pow2str(62)))))
 	fcont := c.fresh("A", ArrSort(SInt, es))
 	oldA := Select(h, SlArr(s))
-	c.defFact(fcont, T(SBool, fmt.Sprintf("(forall ((j Int)) (! (=> (and (<= 0 j) (< j (s-len %s))) (= (select %s j) (select %s (+ (s-off %s) j)))) :pattern ((select %s j))))", s.S, fcont.S, oldA.S, s.S, fcont.S)))
+	c.defFact(fcont, T(SBool, fmt.Sprintf("(forall ((j Int)) (! (=> (and (<= 0 j) (< j (s-len %s))) (= (select %s j) (select %s (sidx %s j)))) :pattern ((select %s j))))", s.S, fcont.S, oldA.S, s.S, fcont.S)))
 	h = c.heap(st, hn, hs)
 	c.setHeap(st, hn, Ite(grow, Store(h, farr, fcont), h))
 	res := c.name("app", Ite(grow, MkSlice(farr, IntLit(0), newLen, fcap, cc.Args[0].Type()), MkSlice(SlArr(s), SlOff(s), newLen, SlCap(s), cc.Args[0].Type())))
 	res.GT = cc.Args[0].Type()
-	c.rangeWrite(st, es, SlArr(res), c.name("dst", Add(SlOff(res), SlLen(s))), srcArr, srcOff, n)
+	c.rangeWrite(st, es, res, SlLen(s), srcAt, n)
 	return res
 }
 
@@ -566,17 +577,21 @@ func (c *VCtx) copyOp(fr *Frame, st *State, cc *ssa.CallCommon) Val {
 	es := sortOf(sl.Elem())
 	hn := elemHeapName(es)
 	hs := ArrSort(SRef, ArrSort(SInt, es))
-	var srcArr, srcOff, sn *Term
+	var srcAt func(k string) string
+	var sn *Term
 	if sortOf(cc.Args[1].Type()) == SStr {
 		t := fr.term(cc.Args[1])
-		srcArr, srcOff, sn = StrData(t), IntLit(0), StrLen(t)
+		srcAt = func(k string) string { return fmt.Sprintf("(select (str-data %s) %s)", t.S, k) }
+		sn = StrLen(t)
 	} else {
 		t := fr.term(cc.Args[1])
 		h := c.heap(st, hn, hs)
-		srcArr, srcOff, sn = c.name("src", Select(h, SlArr(t))), SlOff(t), SlLen(t)
+		src := c.name("src", Select(h, SlArr(t)))
+		srcAt = func(k string) string { return fmt.Sprintf("(select %s (sidx %s %s))", src.S, t.S, k) }
+		sn = SlLen(t)
 	}
 	n := c.name("cpn", Ite(Le(SlLen(d), sn), SlLen(d), sn))
-	c.rangeWrite(st, es, SlArr(d), SlOff(d), srcArr, srcOff, n)
+	c.rangeWrite(st, es, d, IntLit(0), srcAt, n)
 	n.GT = types.Typ[types.Int]
 	return n
 }
@@ -674,7 +689,9 @@ func (c *VCtx) callbackMayUseMonitor(st *State, args []Val) {
 					hs := c.heapSorts[hn]
 					cur := c.heap(st, hn, hs)
 					_, vs := arrParts(hs)
-					st.heaps[hn] = c.name("h", Store(cur, m.obj, c.fresh("hv", vs)))
+					nv := c.fresh("hv", vs)
+					c.wfValue(st, nv)
+					st.heaps[hn] = c.name("h", Store(cur, m.obj, nv))
 				}
 				for _, hn := range whole {
 					c.havocHeap(st, hn)
@@ -691,11 +708,12 @@ func (c *VCtx) callbackMayUseMonitor(st *State, args []Val) {
 
 // tryTranslate translates a clause; nil if it mentions names that do not exist in this scope.
 func (c *VCtx) tryTranslate(sc *Scope, e Expr) (t *Term) {
-	nd, nf := len(c.decls), len(c.facts)
+	nf := len(c.facts)
 	defer func() {
 		if r := recover(); r != nil {
 			if _, ok := r.(unsupported); ok {
-				c.decls, c.facts = c.decls[:nd], c.facts[:nf]
+				// declarations made so far stay (harmless); facts are rolled back
+				c.facts = c.facts[:nf]
 				t = nil
 				return
 			}
